@@ -68,7 +68,7 @@ def commaNat (l : List Nat) : String := ",".intercalate (l.map toString)
 def showState (s : State) : String :=
   s!"t{s.total} f{commaNat s.free.reverse} r{commaNat (s.reqs.foldr insertNat [])} x" ++
   ",".intercalate ((sortByKey s.inbox).map (fun e => s!"{e.1}:{e.2}")) ++
-  " p" ++ ";".intercalate (s.callers.map (fun x => showPC x.pc)) ++
+  " p" ++ ";".intercalate (s.callers.map (fun x => showPC x.pc ++ (if x.cancelled then "!" else ""))) ++
   " c" ++ ";".intercalate (s.conns.map showConn)
 
 /-- Replay; returns the summaries of the visited states (newest first), whether `holdsB` held in
